@@ -246,7 +246,9 @@ func (s *Solver) Pop() { s.send("(pop 1)") }
 
 // Value returns the model value of a BV/Bool term after a Sat answer (frame stays open).
 func (s *Solver) Value(t *term.Term) (uint64, error) {
-	s.define(t)
+	if !s.defined[t.ID] && t.Op != term.OpConst {
+		return 0, fmt.Errorf("Value: term must be defined before check-sat")
+	}
 	s.send("(get-value (" + t.Ref() + "))")
 	s.in.Flush()
 	l, err := s.readLine()
@@ -334,3 +336,6 @@ func (s *Solver) CheckInc(pc []PCItem, extra []*term.Term) (Result, error) {
 	s.send("(pop 1)")
 	return Unknown, fmt.Errorf("solver said: %q", line)
 }
+
+// Define makes t known to the solver (must happen before the check-sat whose model is read).
+func (s *Solver) Define(t *term.Term) { s.define(t) }
